@@ -68,20 +68,31 @@ func gen(r *hx.Rand, n int, tier string, emit func(string), st *hx.Stats) {
 	for i := 0; i < n; {
 		c := r.Fork()
 		m, ts := fga.GenModel(c, fga.DefaultOpts())
+		dense := false
 		switch c.Intn(10) {
 		case 0, 1, 2:
 			m, ts = fga.GenStrategyModel(c)
+			dense = true
 			st.Inc("strategy-model")
-		case 3, 4:
+		case 3, 4, 5:
 			m, ts = genCycleModel(c)
+			dense = c.Chance(1, 2)
 			st.Inc("cycle-model")
 		}
 		if len(m.Types) < 2 {
 			continue
 		}
-		tuples := fga.GenTuples(c, m, 3+c.Intn(18))
+		nt := 3 + c.Intn(18)
+		if dense {
+			nt = 20 + c.Intn(25)
+		}
+		tuples := fga.GenTuples(c, m, nt)
 		for k := 0; k < 4 && i < n; k++ {
 			rq := fga.GenReq(c, m, tuples)
+			if dense && c.Chance(2, 3) {
+				// strategy / cycle models: ask for an object subject on an object that has tuples
+				rq.User = "user:" + hx.Pick(c, []string{"x", "y", "z"})
+			}
 			var ctxT []fga.Tuple
 			if c.Chance(1, 4) {
 				seen := map[string]bool{}
@@ -243,6 +254,9 @@ func theServer() {
 			server.WithDatastore(srvDS),
 			server.WithLogger(&logger.ZapLogger{Logger: zap.New(core)}),
 			server.WithExperimentals("weighted_graph_check"),
+			// breadth 1: the default engine behind the fallback is then deterministic up to the two goroutines of
+			// `exclusion` (otherwise C02's finding F2 makes "fallback answer = default engine's answer" flaky)
+			server.WithResolveNodeBreadthLimit(1),
 		)
 	})
 }
